@@ -525,7 +525,11 @@ def main():
         obligations=max(1, len(theorems)), discharged=len(discharged) if theorems else 0,
         theorems={t: dict(ok=ax.get(t, (False,))[0], axioms=ax.get(t, (False, []))[1]) for t in theorems},
         checker_cmd="cd /verif/lean && lake build StVerif.Props.%s && lake env lean <import StVerif.Props.%s; #print axioms for each theorem>" % (prop, prop) + (" && lake env leanchecker StVerif.Props.%s" % prop if tier == "thorough" else ""),
-        trusted_base=TRUSTED_BASE_COMMON + P.get("trusted_base", []),
+        trusted_base=TRUSTED_BASE_COMMON + P.get("trusted_base", []) + (
+            ["tools/gen_kernels.py: the translator clang-14 JSON AST -> Lean that regenerates lean/StVerif/Generated/Kernels.lean from $ST_REPO/include on every run "
+             "(supported C++ subset, interval-based integer semantics, loads as faulting reads, loops over a fuel argument: DESIGN.md section 14); the bridge theorems "
+             "registered for this property (names ending in _is_model / _are_model / decode_steps_* / translated_*) are about its output"]
+            if any(("_is_model" in t or "_are_model" in t or "translated_" in t) for t in theorems) else []),
         evaluations=tot["items"], lines=tot["lines"], distinct_nontrivial=tot["nontrivial"], distinct_lines=tot["distinct"],
         rule=P.get("rule", ""), samples=tot["samples"] or ["<no cases ran>"], exhaustive=bool(P.get("exhaustive", {}).get(tier, False)),
         exhaustive_note=P.get("exhaustive_note", ""),
